@@ -13,6 +13,7 @@ import Driver.Id3Date
 import Driver.Dict
 import Driver.Id3Spec
 import Driver.TagCodec
+import Driver.Mp4
 open Driver
 
 def dispatch (line : String) : String :=
@@ -34,6 +35,7 @@ def dispatch (line : String) : String :=
     | "dict" => dictOp a
     | "id3spec" => id3specOp a
     | "tagc" => tagcOp a
+    | "mp4" => mp4Op a
     | "flacinfo" => flacInfoOp a
     | "ping" => "pong"
     | _ => "bad-op"
